@@ -339,3 +339,60 @@ PROPS["C16"] = {
         plain_unit("replay", "^TestC16_Replay$", replay=True),
     ],
 }
+
+PROPS["C13"] = {
+    "level": "exploration",
+    "rule": ("engine W: every case runs on a fresh in-process leader; 1..3 client connections are driven one after the other "
+             "through Server.handle over a scripted fake conn. Structured rapid generator: valid 64-byte frames (INIT, LOCK, "
+             "UNLOCK, STATE, ADMIN (then RESP on the same connection), PING, QUIT, CALL LIST_* with protobuf / junk / lying "
+             "content length, WILL_LOCK, WILL_UNLOCK, LEADER, SUBSCRIBE, PUBLISH, unknown types, wrong magic/version) with "
+             "arbitrary field values; LOCK-family frames with flag 0x20 followed by value frames [len32][stage|type][flags]"
+             "[proplen16 props][payload]: every length 0..64 with arbitrary content, all nine operation types and unknown "
+             "ones, stages 0..3, property headers that lie, ARRAY/KV payloads with lying element lengths, nested "
+             "PIPELINE/EXECUTE (depth 3, embedded lock commands, cut frames), payloads up to 1 MiB, declared lengths "
+             "0,1,2,3,5,6,7,len+-1,1 MiB,1 MiB+1,2^31,2^32-1; every registered text command (SELECT, TIMEOUT, LOCK, UNLOCK, "
+             "PUSH, DEL, SET, APPEND, GETSET, SETEX, PSETEX, SETNX, INCR(BY), DECR(BY), EXISTS, EXPIRE, PEXPIRE(AT), PERSIST, "
+             "GET, STRLEN, TYPE, DUMP, KEYS, SCAN, TTL, PTTL, ECHO, PING, INFO, SHOW, QUIT, unknown, empty name) as plausible "
+             "vector, every prefix of it (arity sweep), with dangling option keywords, or as arbitrary list from a hostile "
+             "pool (huge / negative numbers, empty strings, option keywords), RESP rendering with lying *count / $len / "
+             "missing CR; then mutation (bit flips, byte set, truncate, delete, duplicate (frame aligned), splice with a stream "
+             "of the other protocol, insert, swap) on 30 % of the connections and a drawn split into reads (one read, fixed "
+             "1..5000, frame + small pieces, random sizes). 60 % of the cases focus on one key so that value operations of "
+             "different connections / protocols meet each other's state. TestC13_WireTimers: same, with time-outs / expiries "
+             "of 0..60 ms or 0..1 s and a pause of 150 ms (80 %) or 2.3 s (20 %) before the probe so that the sweep "
+             "goroutines act on client data. FuzzC13_Wire: native fuzzing over (bytes, split) on a fresh instance per input, "
+             "seeded with 60 structured cases, the repo's RESP fixtures and hostile constants. Oracle: no panic escapes "
+             "Server.handle and the process does not die; after every connection a pre-established bystander connection still "
+             "holds its private lock and gets PING=SUCCED, re-LOCK=LOCKED_ERROR, UNLOCK=SUCCED, LOCK=SUCCED with matching "
+             "request ids, and fresh binary and text connections are served; the handler ends after EOF (queued lock waits "
+             "are released by the server's forced time-out; a handler still running after 25 s = not judged). "
+             "Non-trivial: at least one connection of the case had >=1 complete command parsed (reached a handler; measured "
+             "as the delta of SLock.statsTotalCommandCount); streams rejected before any command was parsed (first-read "
+             "sniffing, '*' test) are counted in class 'rejected before any command was parsed'. Distinct = FNV-64 of the "
+             "(hex, chunks) of all connections."),
+    "assumptions": [
+        "domain filter (counted): SHUTDOWN, FLUSHALL, (BG)REWRITEAOF never; FLUSHDB, CONFIG, CLIENT, SLAVEOF, REPLSET only as "
+        "variants that cannot take effect on a stand-alone leader, and only on unmutated connections; mutated / raw / fuzz "
+        "streams that contain one of those words, SYNC or REPL_ anywhere (case-insensitive) are dropped",
+        "binary CALL of SYNC / REPL_* (switches the connection into replication mode) is not generated",
+        "everything that makes a handler wait is 0 or tiny: text sessions start with TIMEOUT SET 0, LOCK/UNLOCK/PUSH always "
+        "carry TIMEOUT 0 or 1..30 ms without the minute (0x40) and keep-alive (0x8000) flags, TX/PTX values from {0,1,20}; "
+        "remaining waits are ended with LockDB.flushTimeOut (forced time-out) 400 ms after EOF",
+        "streams that can touch more than 8 databases are dropped (every db costs MBs of queues: resource question)",
+        "one live instance per process; the previous instance is frozen while NewSLock replaces the package global "
+        "defaultServerProtocol; instances are stopped without running the server's shutdown path (LockDB.Close forced "
+        "time-out/expiry), which has panics and races of its own that are outside C13 (see notes §5)",
+        "process deaths are attributed to the case in flight only if the dying goroutine is its connection handler or the "
+        "case reproduces the death in an isolated child; otherwise the report says so",
+        "known findings (listed in known_findings.json) are excluded by construction and counted; see notes/C13.md §3",
+    ],
+    "units": [
+        rapid_unit("wire", "^TestC13_Wire$", quick={"checks": 12000, "shards": 12, "timeout_s": 300, "shrinktime": "20s"},
+                   thorough={"checks": 320000, "shards": 16, "timeout_s": 3000}),
+        rapid_unit("timers", "^TestC13_WireTimers$", quick={"checks": 240, "shards": 4, "timeout_s": 300, "shrinktime": "20s"},
+                   thorough={"checks": 9600, "shards": 16, "timeout_s": 3000}),
+        {"name": "fuzz", "pkg": "server", "run": "FuzzC13_Wire", "kind": "fuzz",
+         "thorough": {"fuzztime": "300s", "shards": 1, "timeout_s": 900}},
+        plain_unit("replay", "^TestC13_Replay$", replay=True),
+    ],
+}
